@@ -392,7 +392,9 @@ def _check_init(col, crate, rid, P, SZ):
             else:
                 col.violation(rid, "%s|%s-init" % (util.fkey(new), nm), new.loc(), "DSU::new initialises the %s array with %s, expected %s for all i<n" % (nm, tstr(v), "parent[i]=i" if role == "index" else "size[i]=1"))
     reset = util.need_body(crate, "DSU::reset")
-    I = util.analyse(reset)
+    # private helpers (possibly generic over an initialiser closure: refill(&mut v, n, |i| i)) are inlined
+    hs_ = [m for m in crate.bodies if not m.is_closure and m.kind in ("Fn", "AssocFn") and m.vis != "pub" and not util.self_recursive(m)]
+    I = util.analyser(hs_, features=("fncall", "comb"))(reset)
     n = ("param", 2, I.names.get(2))
     selfp_r = ("deref", ("param", 1, I.names.get(1)))
     done = {P: False, SZ: False}
@@ -441,7 +443,7 @@ def _check_init(col, crate, rid, P, SZ):
                 if _whole_init(ev.val, n, want[ev.place[2]]):
                     done[ev.place[2]] = True
                     resized[ev.place[2]] = True
-    for head, sts in I.backedge_states.items():
+    for head, sts in list(I.backedge_states.items()) + list(I.inl_back_groups):
         for f in want:
             if sts and all(any(ev.kind == "store" and conforming(ev, f) for ev in st.event_list()) for st in sts):
                 done[f] = True
@@ -463,7 +465,7 @@ def _check_init(col, crate, rid, P, SZ):
                 if want[f] == "index":
                     okall = okall and bool(enum_) and sts_[0].place == ("deref", ("proj", 1, P_)) and sts_[0].val == ("proj", 0, P_)
                 else:
-                    okall = okall and not enum_ and sts_[0].place == ("deref", P_) and sts_[0].val == mk_int(1)
+                    okall = okall and sts_[0].val == mk_int(1) and ((not enum_ and sts_[0].place == ("deref", P_)) or (bool(enum_) and sts_[0].place == ("deref", ("proj", 1, P_))))
             if okall:
                 done[f] = True
     for f in want:
